@@ -160,3 +160,87 @@ def reach_defaults(which: int, has_a: bool, has_b: bool, d: int, e: int) -> int:
     post: _ != 0
     """
     return defaults_check(which, has_a, has_b, d, e)
+
+
+# --------------------------------------------------------------------------------- wiring of the add_* methods
+
+import inspect
+from vf.harness.common import SHARD_I, SHARD_N
+from vf.harness.objmodel import new_file, add_origin
+from vf.harness.items import kind_of, py_values, ITEM_SETS
+from dliswriter.file.file import LogicalFile
+
+# parameter of add_* -> attribute of the item, where the names differ (the standard's label is TYPE in all three)
+PARAM_EXCEPTIONS = {'measurement_type': 'type', 'eq_type': '_type', 'message_type': '_type'}
+NOT_ATTRIBUTES = {'self', 'name', 'set_name', 'origin_reference', 'data', 'dataset_name', 'cast_dtype'}
+
+API_SITES = []          # (method name, parameter name)
+for _n, _f in inspect.getmembers(LogicalFile, inspect.isfunction):
+    if not _n.startswith('add_') or _n in ('add_no_format_frame_data', 'add_origin'):
+        continue
+    for _p in inspect.signature(_f).parameters:
+        if _p not in NOT_ATTRIBUTES:
+            API_SITES.append((_n, _p))
+N_API = len(API_SITES)
+
+
+def api_wiring_check(k, x, s, arm):
+    """One keyword of one add_* method at a time: the value lands in the attribute of that name (documented renames
+    excepted) of the object returned, in no other attribute, and the object is registered in this logical file."""
+    (meth, param) = API_SITES[k]
+    df, (lf,) = new_file(1)
+    add_origin(lf, 'O')
+    base = {}
+    if meth == 'add_frame':
+        base['channels'] = (lf.add_channel('C0'),)
+    probe = getattr(lf, meth)('PROBE', **base)
+    key = PARAM_EXCEPTIONS.get(param, param)
+    a0 = getattr(probe, key, None)
+    if a0 is None:
+        return 1                          # no attribute of that name on the item
+    kind = kind_of(a0)
+    pv = py_values(a0, kind, 1, x, s, arm)
+    if pv is None:
+        return 0
+    (assign, expect) = pv
+    if meth == 'add_frame' and param == 'channels':
+        assign = (lf.add_channel('C1'), lf.add_channel('C2'))
+        expect = list(assign)
+    kw = dict(base)
+    kw[param] = assign
+    try:
+        it = getattr(lf, meth)('OBJ', **kw)
+    except REJECT:
+        return 0
+    got = getattr(it, key).value
+    want = expect if getattr(it, key).multivalued else expect[0]
+    if got != want and not (isinstance(got, list) and list(got) == list(want)):
+        return 2
+    for (k2, a) in it.attributes.items():
+        if k2 == key or k2 in base:
+            continue
+        if a.value is not None and k2 not in ('representation_code',):
+            return 3                      # the value (or something else) also ended up in another attribute
+    if it not in list(lf._eflr_sets.get_all_items_for_set_type(type(it.parent))):
+        return 4
+    if it.origin_reference != lf.default_origin_reference:
+        return 5
+    return 0
+
+
+def ob_api_wiring(k: int, x: int, s: str, arm: bool) -> int:
+    """
+    pre: 0 <= k < N_API and k % SHARD_N == SHARD_I
+    pre: 1 <= x <= 3 and len(s) <= 1 and s.isascii()
+    post: _ == 0
+    """
+    return api_wiring_check(k, x, s, arm)
+
+
+def reach_api_wiring(k: int, x: int, s: str, arm: bool) -> int:
+    """
+    pre: 0 <= k < N_API
+    pre: 1 <= x <= 3 and len(s) <= 1 and s.isascii()
+    post: _ != 0
+    """
+    return api_wiring_check(k, x, s, arm)
